@@ -64,15 +64,18 @@ static void setup(ZSTD_CCtx* c, const Plan* p, Sess* s) {
 static void prior_history(ZSTD_CCtx* c, const Plan* p, Sess* s) {
     int const hk = (int)plan_get(p, "hist_kind", 0); Rng r; size_t n = 1000 + (size_t)plan_get(p, "hist_size", 50000); uint8_t* x = (uint8_t*)malloc(n); uint8_t* d = (uint8_t*)malloc(ZSTD_compressBound(n) + 64); size_t rr;
     rng_seed(&r, (uint64_t)plan_get(p, "hist_seed", 3), "history"); gen_input(&r, (int)rng_below(&r, GEN_NKINDS), x, n);
-    if (hk & 1) {   /* complete frame(s) with other parameters */
+    if (hk & 1) {   /* complete frame(s): other parameters, or the target's own parameters; sizes biased to the tiny end (0..16 bytes) */
         int f, nf = 1 + (int)rng_below(&r, 3);
-        for (f = 0; f < nf; f++) { ZSTD_CCtx_reset(c, ZSTD_reset_session_and_parameters); ZSTD_CCtx_setParameter(c, ZSTD_c_compressionLevel, (int)rng_range(&r, -3, 12)); ZSTD_CCtx_setParameter(c, ZSTD_c_windowLog, (int)rng_range(&r, 10, 22)); if (rng_coin(&r, 1, 3)) ZSTD_CCtx_setParameter(c, ZSTD_c_enableLongDistanceMatching, 1); if (rng_coin(&r, 1, 3)) ZSTD_CCtx_loadDictionary(c, x, n / 3);
-            rr = ZSTD_compress2(c, d, ZSTD_compressBound(n) + 64, x, n - rng_below(&r, n / 2)); if (ZSTD_isError(rr)) sim_violation("api_error", "history frame failed: %s", ZSTD_getErrorName(rr)); }
+        for (f = 0; f < nf; f++) { size_t hn = rng_coin(&r, 1, 3) ? rng_below(&r, 17) : rng_coin(&r, 1, 2) ? rng_below(&r, 600) : n - rng_below(&r, n / 2); if (hn > n) hn = n;
+            ZSTD_CCtx_reset(c, ZSTD_reset_session_and_parameters);
+            if (rng_coin(&r, 1, 2)) { sess_apply_cparams(c, p); ZSTD_CCtx_setParameter(c, ZSTD_c_nbWorkers, 0); }
+            else { ZSTD_CCtx_setParameter(c, ZSTD_c_compressionLevel, hn < 5000 ? (int)rng_range(&r, -3, 22) : (int)rng_range(&r, -3, 12)); ZSTD_CCtx_setParameter(c, ZSTD_c_windowLog, (int)rng_range(&r, 10, 22)); if (rng_coin(&r, 1, 3)) ZSTD_CCtx_setParameter(c, ZSTD_c_enableLongDistanceMatching, 1); if (rng_coin(&r, 1, 3)) ZSTD_CCtx_loadDictionary(c, x, n / 3); }
+            rr = ZSTD_compress2(c, d, ZSTD_compressBound(n) + 64, x, hn); if (ZSTD_isError(rr)) sim_violation("api_error", "history frame failed: %s", ZSTD_getErrorName(rr)); }
         sim_probe("c07.hist_frames");
     }
     if (hk & 2) {   /* abandoned frame */
-        ZSTD_inBuffer ib; ZSTD_outBuffer ob; ZSTD_CCtx_reset(c, ZSTD_reset_session_and_parameters); ZSTD_CCtx_setParameter(c, ZSTD_c_compressionLevel, (int)rng_range(&r, 1, 9));
-        ib.src = x; ib.size = n / 2; ib.pos = 0; ob.dst = d; ob.size = 1 + rng_below(&r, 5000); ob.pos = 0; ZSTD_compressStream2(c, &ob, &ib, rng_coin(&r, 1, 2) ? ZSTD_e_continue : ZSTD_e_flush);
+        ZSTD_inBuffer ib; ZSTD_outBuffer ob; ZSTD_CCtx_reset(c, ZSTD_reset_session_and_parameters); if (rng_coin(&r, 1, 2)) { sess_apply_cparams(c, p); ZSTD_CCtx_setParameter(c, ZSTD_c_nbWorkers, 0); } else ZSTD_CCtx_setParameter(c, ZSTD_c_compressionLevel, (int)rng_range(&r, 1, 9));
+        ib.src = x; ib.size = rng_coin(&r, 1, 3) ? rng_below(&r, 17) : n / 2; ib.pos = 0; ob.dst = d; ob.size = 1 + rng_below(&r, 5000); ob.pos = 0; ZSTD_compressStream2(c, &ob, &ib, rng_coin(&r, 1, 2) ? ZSTD_e_continue : ZSTD_e_flush);
         ZSTD_CCtx_reset(c, ZSTD_reset_session_only); sim_probe("c07.hist_abandoned");
     }
     if (hk & 4) {   /* failed call: destination too small */
